@@ -565,6 +565,7 @@ type Specs struct {
 	RawSMT    []string
 	Macros    map[string][]string
 	ElemInvs  []ElemInv
+	FreshInits []ElemInv // "freshinit <type>: <expr over x>": holds for a freshly allocated object x of that struct type
 }
 
 // ElemInv is a global invariant on the elements of every slice / array / map value whose element
@@ -734,6 +735,19 @@ func (sp *Specs) loadSpecFile(path, commentPrefix string, external bool) error {
 				return fail(err)
 			}
 			sp.ElemInvs = append(sp.ElemInvs, ElemInv{Type: strings.TrimSpace(r2[:i]), Tags: tags, E: e, Src: strings.TrimSpace(r2[i+2:])})
+			cur = nil
+			continue
+		case "freshinit":
+			tags, r2 := splitTags(rest)
+			i := strings.Index(r2, ": ")
+			if i < 0 {
+				return fail(fmt.Errorf("freshinit <type>: <expr over x>"))
+			}
+			e, err := parseExpr(strings.TrimSpace(r2[i+2:]))
+			if err != nil {
+				return fail(err)
+			}
+			sp.FreshInits = append(sp.FreshInits, ElemInv{Type: strings.TrimSpace(r2[:i]), Tags: tags, E: e, Src: strings.TrimSpace(r2[i+2:])})
 			cur = nil
 			continue
 		case "macro":
